@@ -14,6 +14,10 @@ from every decision boundary are judged, the rest are counted.  Returned interse
 (floats = dyadic rationals) are judged by the Lean predicate `nearArc` up to 1e-9.  The latitude
 value is a float clause: judged against the exact value with the library's own ERROR_TOLERANCE.
 
+Proposed, not applied (the findings they remove stay listed so that /repo is green):
+fixes/C14-plane-test-relative-tolerance.patch (theorem-backed: plane_residual_error, double_plane_thresholds),
+fixes/C14-extreme-endpoint-latitude.patch (needs C13's model to follow), fixes/C14-extreme-apex-from-normal.patch.
+
 The model is the REPAIRED `point_within_gca` (fixes/C14-point-within-gca-vector-test.patch: the two
 sign tests of `OnArc` for undirected arcs).  On the unrepaired tree the longitude/latitude interval
 logic fails on arcs through / ending at / next to a pole (VIOLATION lines; minimised witnesses in
@@ -160,6 +164,40 @@ def gen_arc(rng, kind):
                 a = (a[0], abs(a[1]), a[2], a[3])
                 b = (b[0], -abs(b[1]), b[2], b[3])
                 return (a, b) if rng.random() < 0.5 else (b, a)
+    # ---- exact numeric boundaries of the closed forms (all inside the property's quantifier) ----
+    if kind == "opposite-latitudes":  # z1 = -z2 exactly: the denominator of d_a_max is exactly 0
+        a = rnd_point(rng)
+        return a, rotz((a[0], a[1], -a[2], a[3]), rng.choice(PYTH))
+    if kind == "quarter-turn":  # a.b = 0 exactly: two rows of a rational rotation matrix
+        while True:
+            p, q, r, s_ = (rng.randint(-5, 5) for _ in range(4))
+            n = p * p + q * q + r * r + s_ * s_
+            if n:
+                rows = [(p * p + q * q - r * r - s_ * s_, 2 * (q * r - p * s_), 2 * (q * s_ + p * r), n),
+                        (2 * (q * r + p * s_), p * p - q * q + r * r - s_ * s_, 2 * (r * s_ - p * q), n),
+                        (2 * (q * s_ - p * r), 2 * (r * s_ + p * q), p * p - q * q - r * r + s_ * s_, n)]
+                i, j = rng.sample(range(3), 2)
+                return _red(*rows[i]), _red(*rows[j])
+    if kind == "near-half-turn":  # 180° minus 2e-3 .. 2e-5 rad
+        a, c = rnd_point(rng), rnd_point(rng)
+        nb = reflect(a, comb(rng.choice([10**3, 10**4, 10**5]), a, 1, c))
+        return a, (-nb[0], -nb[1], -nb[2], nb[3])
+    if kind == "axis-planes":  # end points exactly on the equator / a pole / the prime meridian / the antimeridian
+        def special():
+            t = rng.randrange(5)
+            if t == 0:
+                return equator_point(rng)
+            if t == 1:
+                return rng.choice([NORTH, SOUTH])
+            if t in (2, 3):
+                while True:
+                    u, w = rng.randint(-9, 9), rng.randint(-9, 9)
+                    if u and w:
+                        p = sph(u, 0, w)
+                        if (p[0] > 0) == (t == 2) and p[0] != 0:
+                            return p
+            return rnd_point(rng)
+        return special(), special()
     if kind == "near-pole":
         a = near_pole_point(rng)
         b = rnd_point(rng) if rng.random() < 0.7 else near_pole_point(rng)
@@ -167,7 +205,14 @@ def gen_arc(rng, kind):
     raise ValueError(kind)
 
 
-ARC_KINDS = ["generic", "generic", "generic", "equator", "pole-endpoint", "meridian", "through-pole", "antimeridian"]
+def pick_arc(ctx, rng, kinds):
+    k = rng.choice(kinds)
+    ctx.hit(f"gen:arc-kind={k}")
+    return gen_arc(rng, k)
+
+
+ARC_KINDS = ["generic", "generic", "generic", "equator", "pole-endpoint", "meridian", "through-pole", "antimeridian",
+             "opposite-latitudes", "quarter-turn", "near-half-turn", "axis-planes"]
 
 
 def gen_query(rng, a, b, kind):
@@ -346,6 +391,14 @@ def _special(c1, c2):
     return min((c1, c2), key=_ORDER.index)
 
 
+def polar_near_half_turn(a, b):
+    """exact input class: the arc is within 1e-2 rad of half a turn (1 + cos < 5e-5) and the apex of its great circle
+    is within 1e-3 rad of a pole (|n_z| < 1e-3 |n|) – there the interpolation node3 = (1-d) n1 + d n2 of the closed
+    form cancels and the error is first order in latitude"""
+    rr, n = a[3] * b[3], cross(a, b)
+    return (rr + dot(a, b)) * 20000 < rr and n[2] * n[2] * 10**6 < dot(n, n)
+
+
 def exact_lat(apex, num, den, sign):
     if apex:  # value is sin² of the latitude
         return sign * math.atan2(math.sqrt(num), math.sqrt(den - num))
@@ -391,6 +444,8 @@ def judge_extreme(ctx, impl, a, b, tag, tol, k=None):
                 sig = f"C14/extreme_gca_latitude/{which}/{branch}/arc={arc_class(A, B)}"
                 if impl.snapped(A, B):
                     sig = "C14/extreme_gca_latitude/end-point-snapped-to-pole"
+                elif branch == "apex" and polar_near_half_turn(A, B):
+                    sig = "C14/extreme_gca_latitude/apex-at-pole/arc-within-1e-2rad-of-half-turn"
                 _fail(ctx, sig,
                          f"extreme_gca_latitude(..., '{which}') = {got!r} but the {which}imum latitude over the arc is {want[which]!r} "
                          f"(error {err:.3g} rad, {name})", dict(inp, variant=name, rot=list(k), which=which), got, want[which], ["extreme_is_" + which])
@@ -552,7 +607,7 @@ def gen_session(ctx, rng):
     """an arc (with an interior extreme latitude in most sessions) and 2–4 calls in random order"""
     want_interior = rng.random() < 0.8
     for _ in range(8):
-        a, b = gen_arc(rng, rng.choice(ARC_KINDS))
+        a, b = pick_arc(ctx, rng, ARC_KINDS)
         if cross(a, b) == (0, 0, 0):
             continue
         r = [int(x) for x in ctx.driver.ask("C14.extreme", *_u(a), *_u(b)).split()]
@@ -598,7 +653,9 @@ def run(ctx):
     impl = Impl()
     rng = ctx.rng
     ctx.rule = ("rational unit vectors (stereographic, |params| ≤ 9; reflections for points on a given great circle); arcs: generic, "
-                "equator, meridian, through a pole, ending at a pole, across the antimeridian, near-pole end points; queries: inside the "
+                "equator, meridian, through a pole, ending at a pole, across the antimeridian, near-pole end points, and the exact numeric "
+                "boundaries of the closed forms: end points at exactly opposite latitudes (denominator of d_a_max exactly 0), exact quarter "
+                "turns, half turn minus 2e-3..2e-5 rad, end points exactly on the equator / a pole / the prime meridian / the antimeridian; queries: inside the "
                 "arc, on the circle beyond an end, 1e-3..1e-5 rad inside/outside an end, off the circle, 1e-3..1e-5 rad off the circle, the "
                 "poles; second arcs built through / short of / just touching a rational point of the first; every case also with ends "
                 "swapped, arcs swapped and rotated about z by a Pythagorean angle; only cases whose exact margin (Lean, ℚ) is ≥ 1e-6 are "
@@ -623,24 +680,24 @@ def run(ctx):
         _judge_input(ctx, impl, json.loads(f.read_text())["input"], "corpus:" + f.stem)
     kinds = ARC_KINDS + ["near-pole"]
     for _ in range(ctx.n(12000, 400000)):
-        a, b = gen_arc(rng, rng.choice(kinds))
+        a, b = pick_arc(ctx, rng, kinds)
         q = rng.choice(QUERY_KINDS + ["pole", "near-pole"])
         judge_onarc(ctx, impl, a, b, gen_query(rng, a, b, q), q)
     for _ in range(ctx.n(6000, 200000)):
-        a, b = gen_arc(rng, rng.choice(kinds))
+        a, b = pick_arc(ctx, rng, kinds)
         if rng.random() < 0.7:
             if cross(a, b) == (0, 0, 0):
                 continue
             c, d_ = gen_crossing(rng, a, b)
             tag = "constructed"
         else:
-            c, d_ = gen_arc(rng, rng.choice(kinds))
+            c, d_ = pick_arc(ctx, rng, kinds)
             tag = "independent"
         if rng.random() < 0.5:
             a, b, c, d_ = c, d_, a, b
         judge_meet(ctx, impl, a, b, c, d_, tag)
     for _ in range(ctx.n(6000, 200000)):
-        a, b = gen_arc(rng, rng.choice(kinds))
+        a, b = pick_arc(ctx, rng, kinds)
         judge_extreme(ctx, impl, a, b, "generated", impl.tol)
     for _ in range(ctx.n(2500, 60000)):
         sess = gen_session(ctx, rng)
